@@ -10,7 +10,7 @@ Variable c : cfg.
 Hypothesis Hc : cfg_ok c.
 
 Ltac startE HS HE Hg H s :=
-  intros HS HE Hg H; destruct Hc as [Hb Hn]; open_state s; cbn in H, Hg; unfold flow in H; cbn in H.
+  intros HS HE Hg H; destruct Hc as [Hb Hn Hdm]; open_state s; cbn in H, Hg; unfold flow in H; cbn in H.
 
 Lemma presE_PPutPos s p v s' :
   InvS s -> InvE g c s -> (g = true -> mail_first_okb s (PPutPos p v) = true) -> step c s (PPutPos p v) = Some s' -> InvE g c s'.
@@ -122,6 +122,14 @@ Proof.
            | edestruct (i_j2 eq_refl eq_refl o) as [A|[A|A]]; [eassumption|eassumption|left; exact A| |discriminate A];
              edestruct i_j3 as [B|B]; [reflexivity|exact A|left; exact B|destruct B] ]
        end.
+Qed.
+
+Lemma presE_PLookup s o present s' :
+  InvS s -> InvE g c s -> (g = true -> mail_first_okb s (PLookup o present) = true) -> step c s (PLookup o present) = Some s' -> InvE g c s'.
+Proof.
+  startE HS HE Hg H s.
+  guards H; inversion H; subst; clear H; bools; subst; try congruence; destruct HS, HE; cbn in *;
+    constructor; cbn; intros; try discriminate; eauto.
 Qed.
 
 End Pres.
